@@ -30,7 +30,14 @@ def build_model(spec):
     k = spec["kind"]
     if k == "categorical":
         dt = np.float32 if spec.get("f32") else np.float64
-        return M.Categorical(np.array(spec["probs"], dtype=dt), lazy=spec["lazy"], perfect=spec["perfect"])
+        kw = {}
+        # "omit": arguments left to the binding's documented defaults (the model must still be the one named by lazy/perfect)
+        if "lazy" not in spec.get("omit", []):
+            kw["lazy"] = spec["lazy"]
+        if "perfect" not in spec.get("omit", []):
+            kw["perfect"] = spec["perfect"]
+        with contextlib.redirect_stdout(io.StringIO()):  # (the binding prints a deprecation warning when both are omitted)
+            return M.Categorical(np.array(spec["probs"], dtype=dt), **kw)
     if k == "gaussian":
         return M.QuantizedGaussian(spec["min"], spec["max"], spec["mean"], spec["std"])
     if k == "uniform":
@@ -65,6 +72,23 @@ def run_vectors(path):
                 dec = constriction.stream.queue.RangeDecoder(want)
                 back = dec.decode(model, len(syms))
             counters["symbols_encoded"] += len(syms)
+            # the same words handed over as non-contiguous numpy VIEWS (negative stride, stride 2) must be read in
+            # logical order, not in memory order
+            if len(want) >= 2 and n % 7 == 0:
+                counters["view_vectors"] = counters.get("view_vectors", 0) + 1
+                rev_view = want[::-1].copy()[::-1]
+                strided = np.repeat(want, 2)[::2]
+                for name, view in (("negative-stride view", rev_view), ("stride-2 view", strided)):
+                    if c["coder"] == "ans":
+                        d2 = constriction.stream.stack.AnsCoder(view)
+                        same = np.array_equal(d2.get_compressed(), want)
+                    else:
+                        d2 = constriction.stream.queue.RangeDecoder(view)
+                        same = True
+                    b2 = d2.decode(model, len(syms))
+                    if not same or len(b2) != len(syms) or not np.all(b2 == syms):
+                        failures.append({"what": f"Python front end | {c['coder']} decoder | compressed words passed as a {name} are not read in logical order",
+                                         "detail": f"model {c['model']} symbols {c['symbols']}: decoded {[int(x) for x in b2]}"})
             if len(got) != len(want) or not np.all(got == want):
                 failures.append({"what": f"Python front end | {c['coder']} encoder | words differ from the Rust front end",
                                  "detail": f"model {c['model']} symbols {c['symbols']}: python {[int(x) for x in got]} rust {c['words']}"})
